@@ -18,6 +18,7 @@ inductive Seg where
   | s (name : String)
   | csv (n : Nat)
   | dinfo (n : Nat)
+  | model (ext : String)      -- "model" ++ filename_extension, e.g. model.ctl
   deriving DecidableEq, Repr, Inhabited
 
 abbrev Path := List Seg
@@ -84,12 +85,14 @@ def read (fs : FS) (p : Path) : Option Content :=
   | some (.file c) => some c
   | _ => none
 
-/-- Names bound directly under directory `d` (each once). -/
+/-- Names bound directly under directory `d` (a name bound several times in
+    the association list is listed several times; users take the first name,
+    test emptiness or fold a maximum). -/
 def children (fs : FS) (d : Path) : List Seg :=
-  (fs.filterMap fun (pn : Path × Node) =>
+  fs.filterMap fun (pn : Path × Node) =>
     match pn.1.getLast? with
     | some x => if pn.1.dropLast = d then some x else none
-    | none => none).eraseDups
+    | none => none
 
 inductive Op where
   | mkdir (p : Path)
